@@ -49,6 +49,22 @@ def _solve_one(ob, timeout_ms, seed):
     last = {"verdict": "unknown", "reason": "portfolio exhausted"}
     portfolio = PORTFOLIO
     ground = not _has_quantifier(ob.hyps + [ob.goal])
+    rsyms = _rec_symbols(ob.goal)
+    if rsyms:
+        # the goal speaks about recursive specification functions: first try with the hypotheses that mention one of them only (lemma instances,
+        # callee postconditions) - with everything else present, unfolding the definitions and instantiating frames feed each other without end
+        rel = [h for h in ob.hyps if _rec_symbols(h) & rsyms]
+        if rel and len(rel) < len(ob.hyps):
+            for opts_ in ({"smt.mbqi": False}, {}):
+                s = z3.Solver()
+                s.set("timeout", max(1000, int(timeout_ms * 0.1)))
+                for k_, v_ in opts_.items():
+                    s.set(k_, v_)
+                for h in rel:
+                    s.add(h)
+                s.add(z3.Not(ob.goal))
+                if s.check() == z3.unsat:
+                    return {"verdict": "proved", "time": time.time() - t_start, "backend": "z3 (hypotheses about the goal's specification functions only)"}
     if not ground and not _has_quantifier([ob.goal]):
         # a quantifier-free goal (typically a peeled last element).  First the usual E-matching attempt on everything, then the
         # goal from the quantifier-free hypotheses alone (dropping hypotheses is sound for proving): EUF, then native strings.
@@ -274,6 +290,32 @@ def _relevant(hyps, goal, depth=99):
             break
         sym |= new
     return [h for (h, _), c in zip(hs, chosen) if c]
+
+
+_rec_memo = {}
+
+
+def _rec_symbols(e):
+    """Names of the recursive specification functions a term mentions."""
+    k = e.get_id()
+    hit = _rec_memo.get(k)
+    if hit is not None and hit[0].eq(e):
+        return hit[1]
+    out, seen, stack = set(), set(), [e]
+    while stack:
+        x = stack.pop()
+        if x.get_id() in seen:
+            continue
+        seen.add(x.get_id())
+        if z3.is_quantifier(x):
+            stack.append(x.body())
+            continue
+        if z3.is_app(x):
+            if x.decl().kind() == z3.Z3_OP_RECURSIVE:
+                out.add(x.decl().name())
+            stack.extend(x.children())
+    _rec_memo[k] = (e, out)
+    return out
 
 
 def _mentions_last_index(e):
